@@ -179,7 +179,8 @@ class ConcatenatedLazyIndexer(LazyIndexer):
                 local_indices = keep_head - indexer_starts[indexers]
                 # Determine output data shape after second-stage selection
                 final_shape = [len(np.atleast_1d(np.arange(len(self))[keep[0]]))] + shape_tails
-                out_data = np.empty(final_shape, dtype=self.dtype)
+                # The buffer receives the data as delivered by the indexers, i.e. before the transforms are applied
+                out_data = np.empty(final_shape, dtype=self._initial_dtype)
                 for ind in range(len(self.indexers)):
                     chunk_mask = (indexers == ind)
                     # Insert all selected data originating from same indexer into final array
